@@ -4,7 +4,7 @@
    are generic in the cell type and hold at V = bool whatever the storage; what is specific to the
    packed storage is the addressing of bits through slice views, proved here for every alignment
    and nesting depth, and compared with the implementation's view objects on every run. *)
-From HS Require Import Prelude Packed PackedProofs PackedOps.
+From HS Require Import Prelude Packed PackedProofs PackedOps PackedSum.
 Open Scope Z_scope.
 
 (* a slice [a, b) of a well-formed view is a well-formed view of b - a bits whose bit 0 is the
@@ -87,6 +87,14 @@ Proof. exact clear_bits_spec. Qed.
 Theorem C05_test_bit_at_location : forall t p, 0 <= p -> test_bit_at t p = bit t p.
 Proof. exact test_bit_at_spec. Qed.
 
+(* sum() of a view — what n_valid of a bit-packed map returns — is the number of set bits of the view, for
+   every alignment: masked edge bytes + table look-ups of the middle bytes *)
+Theorem C05_sum_is_the_number_of_set_bits_of_the_view :
+  forall (v : pview) (data : list Z),
+    view_ok v -> vds v = 0 -> vde v = zlen data -> 0 < vsize v -> bytes_ok data ->
+    sum_view v data = zcount (bit data) (zrange (vsi v) (vst v)).
+Proof. exact sum_view_spec. Qed.
+
 Example C05_hypotheses_satisfiable :
   view_ok (mkview 0 8 0 64) /\
   slice_view (mkview 0 8 0 64) (Some 3) (Some 40) = Some (mkview 0 5 3 40) /\
@@ -103,4 +111,5 @@ Print Assumptions C05_bulk_operations_change_exactly_the_bits_of_the_view.
 Print Assumptions C05_set_bits_at_locations.
 Print Assumptions C05_clear_bits_at_locations.
 Print Assumptions C05_test_bit_at_location.
+Print Assumptions C05_sum_is_the_number_of_set_bits_of_the_view.
 Print Assumptions C05_hypotheses_satisfiable.
